@@ -159,6 +159,12 @@ pub fn code_has_const_path_into_atom(code: &V) -> bool {
                                     return true;
                                 }
                             }
+                            // the same defect with a whole program instead of a path: quoted code
+                            // applied to the quoted atom 64, i.e. to "@" (the environment) taken
+                            // as the number its byte spells
+                            if quoted_atom(a2) == Some(&vec![64u8]) && !matches!(quoted_atom(a1), Some(p) if p.len() <= 1 && p != &vec![64u8] && (p.is_empty() || p == &vec![1u8])) {
+                                return true;
+                            }
                         }
                     }
                 }
@@ -171,10 +177,18 @@ pub fn code_has_const_path_into_atom(code: &V) -> bool {
 pub fn known_for_build(v: &Viol) -> Option<&'static str> {
     let d = v.case.get("dialect")?.as_str()?;
     let opts = v.case.get("options").and_then(|o| o.as_str()).unwrap_or("");
+    let src = v.case.get("source").and_then(|s| s.as_str()).unwrap_or("");
+    // (a rejected build has no code: this predicate comes first)
+    // cl23+ CSE binds a repeated sub-expression outside the assign/let that binds a name the
+    // sub-expression uses: the optimised build is rejected with "Unbound use of <renamed binding>".
+    // Excused only when (1) cl23+ with optimize on, (2) the build is *rejected* with exactly that
+    // message about a renamed (gensym'd) name, (3) the source repeats a call form.
+    if (d == "cl23" || d == "cl23.1" || d == "cl24") && opts.contains("opt=1") && (v.sig.starts_with("optimised-build-rejects") || v.sig.starts_with("compile-error")) && v.observed.contains("Unbound use of") && v.observed.contains("_$_") && source_repeats_a_call(src) {
+        return Some("cl23-cse-lifts-an-expression-out-of-the-binding-it-uses");
+    }
     let code = sut::consensus_deserialize(&hex::decode(v.case.get("compiled_hex")?.as_str()?).ok()?).ok()?;
     // the evaluator's com handling is reached through the cl22 frontend optimiser and, in every
     // dialect, through defconst evaluation
-    let src = v.case.get("source").and_then(|s| s.as_str()).unwrap_or("");
     if (d == "cl22" || opts.contains("fe=1") || src.contains("(defconst ")) && code_has_gensym_atom(&code) {
         return Some("evaluator-com-leaks-let-bound-names");
     }
@@ -221,6 +235,30 @@ pub fn known_for_build(v: &Viol) -> Option<&'static str> {
         }
     }
     None
+}
+
+/// does some top-level form of the source contain the same call form (a list of >= 3 tokens) twice?
+pub fn source_repeats_a_call(src: &str) -> bool {
+    use chialisp::compiler::sexp::SExp;
+    use std::borrow::Borrow;
+    fn collect(s: &SExp, out: &mut Vec<String>) {
+        if let SExp::Cons(_, h, t) = s {
+            if matches!(h.borrow(), SExp::Atom(_, _)) && s.proper_list().map(|l| l.len() >= 3).unwrap_or(false) {
+                out.push(s.to_string());
+            }
+            collect(h.borrow(), out);
+            collect(t.borrow(), out);
+        }
+    }
+    let Ok(forms) = chialisp::compiler::sexp::parse_sexp(sut::loc(), src.bytes()) else {
+        return false;
+    };
+    let mut v = vec![];
+    for f in forms.iter() {
+        collect(f.borrow(), &mut v);
+    }
+    v.sort();
+    v.windows(2).any(|w| w[0] == w[1])
 }
 
 /// does some top-level form of the source contain a partial operation (f, r, /, %, divmod,
